@@ -5,6 +5,7 @@ package core
 import (
 	"fmt"
 	"math"
+	"math/rand"
 	"regexp"
 	"runtime/debug"
 	"strconv"
@@ -31,6 +32,14 @@ type Opts struct {
 	FixedW   float64               `json:"fixed_w"`
 	FixedH   float64               `json:"fixed_h"`
 	Sizes    map[string][2]float64 `json:"sizes,omitempty"` // nil: WithNodeSize not passed. W,H per node id
+	// SizeXY gives the X,Y fields of some size-map entries arbitrary values (graph.Size has them; a caller who fills the
+	// map from an earlier layout passes them). A size is a width and a height: the coordinates must be ignored.
+	SizeXY map[string][2]float64 `json:"size_xy,omitempty"`
+	// SizeMap, when set, is the very map handed to WithNodeSize (instead of one built from Sizes and SizeXY), so that a
+	// check can compare it with a copy after the call.
+	SizeMap map[string]graph.Size `json:"-"`
+	// Shuffle != 0 permutes the option list (the options set independent fields; their order must not matter).
+	Shuffle int64 `json:"shuffle,omitempty"`
 
 	NodeSpacing  *float64 `json:"node_spacing,omitempty"`
 	LayerSpacing *float64 `json:"layer_spacing,omitempty"`
@@ -151,12 +160,10 @@ func (o Opts) Options() []autog.Option {
 	if o.HasFixed {
 		os = append(os, autog.WithNodeFixedSize(o.FixedW, o.FixedH))
 	}
-	if o.Sizes != nil {
-		m := make(map[string]graph.Size, len(o.Sizes))
-		for k, v := range o.Sizes {
-			m[k] = graph.Size{W: v[0], H: v[1]}
-		}
-		os = append(os, autog.WithNodeSize(m))
+	if o.SizeMap != nil {
+		os = append(os, autog.WithNodeSize(o.SizeMap))
+	} else if o.Sizes != nil {
+		os = append(os, autog.WithNodeSize(o.BuildSizeMap()))
 	}
 	if o.NodeSpacing != nil {
 		os = append(os, autog.WithNodeSpacing(*o.NodeSpacing))
@@ -170,7 +177,23 @@ func (o Opts) Options() []autog.Option {
 	if o.VirtualSet || o.Virtual {
 		os = append(os, autog.WithOutputVirtualNodes(o.Virtual))
 	}
+	if o.Shuffle != 0 {
+		rand.New(rand.NewSource(o.Shuffle)).Shuffle(len(os), func(i, j int) { os[i], os[j] = os[j], os[i] })
+	}
 	return os
+}
+
+// BuildSizeMap returns a fresh map for WithNodeSize (nil if the option is not passed).
+func (o Opts) BuildSizeMap() map[string]graph.Size {
+	if o.Sizes == nil {
+		return nil
+	}
+	m := make(map[string]graph.Size, len(o.Sizes))
+	for k, v := range o.Sizes {
+		xy := o.SizeXY[k]
+		m[k] = graph.Size{X: xy[0], Y: xy[1], W: v[0], H: v[1]}
+	}
+	return m
 }
 
 // Case is one fully determined unit of work of a property check. Replay files are serialised Cases.
